@@ -129,7 +129,8 @@ def run(ctx):
     ctx.cov['evaluations'] += m
     ctx.stage('key-table', cases=m)
     # non-mappings raise TypeError
-    for bad in ([1, 2], 'text', None, 5, ('a', 'b'), {1, 2}, b'x'):
+    # (each kind of non-mapping twice, and once more after the others: the answer does not wear off)
+    for bad in ([1, 2], [3], 'text', 'more text', None, None, 5, 6, ('a', 'b'), ('c',), {1, 2}, {3}, b'x', b'y', [1, 2], 'text', None):
         try:
             strutils.mask_dict_password(bad)
             out = 'returned'
